@@ -168,4 +168,39 @@ def r5(ctx):
     shared.forward_rule(ctx, "C07.R5", "drop_rows")
 
 
-RULES = [("C07.R1", r1), ("C07.R2", r2), ("C07.R3", r3), ("C07.R4", r4), ("C07.R5", r5)]
+def r6(ctx):
+    """each part's attached spec regenerates that part: recorded structure is reused faithfully (= C04.R3)."""
+    from . import c04
+    saved = ctx.obligations
+    ctx.obligations = []
+    c04.r3(ctx)
+    for o in ctx.obligations:
+        o.rule = "C07.R6"
+    ctx.obligations = saved + ctx.obligations
+
+
+def r7(ctx):
+    """all parts contain the same rows: every encoder on the build path removes the one drop sequence by position (= C06.R2/R3)."""
+    from . import c06
+    saved = ctx.obligations
+    ctx.obligations = []
+    c06.r2(ctx)
+    c06.r3(ctx)
+    c06.r8(ctx)
+    for o in ctx.obligations:
+        o.rule = "C07.R7"
+    ctx.obligations = saved + ctx.obligations
+
+
+def r8(ctx):
+    """factors evaluated once are shared by all parts: the encoding cache never hands a part an encoding made for another rank mode (= C03.R6)."""
+    from . import c03
+    saved = ctx.obligations
+    ctx.obligations = []
+    c03.r6(ctx)
+    for o in ctx.obligations:
+        o.rule = "C07.R8"
+    ctx.obligations = saved + ctx.obligations
+
+
+RULES = [("C07.R1", r1), ("C07.R2", r2), ("C07.R3", r3), ("C07.R4", r4), ("C07.R5", r5), ("C07.R6", r6), ("C07.R7", r7), ("C07.R8", r8)]
